@@ -256,8 +256,22 @@ class E1:
                     t = {"add": ("add", a, c, bits), "sub": ("sub", a, c, bits), "mul": ("mulc", a, c, bits), "shl": ("shl", a, c, bits),
                          "lshr": ("shr", a, c), "and": ("and", a, c), "or": ("or", a, c), "udiv": ("udiv", a, c), "urem": ("urem", a, c)}.get(op)
                     if t is None: raise Unsupported(op)
-                    # sub with wrap would not be canonical; require no wrap on this interval
-                    if op == "sub" and monotone(a, path.lo, path.hi) and ev(a, path.lo) < c: raise Unsupported("sub may wrap")
+                    # sub that wraps on the lower part of the interval: split the interval at the wrap point; below it the
+                    # result is a + (2^bits - c) (no wrap), above it the plain difference
+                    if op == "sub" and monotone(a, path.lo, path.hi) and ev(a, path.lo) < c:
+                        if ev(a, path.hi) < c:
+                            env[i.id] = norm(("add", a, (1 << bits) - c, bits), path.lo, path.hi); continue
+                        lo_, hi_ = path.lo, path.hi
+                        while lo_ < hi_:
+                            mid = (lo_ + hi_ + 1) // 2
+                            if ev(a, mid) < c: lo_ = mid
+                            else: hi_ = mid - 1
+                        for (pa, pb, wrapped) in ((path.lo, lo_, True), (lo_ + 1, path.hi, False)):
+                            p2 = path.fork(pa, pb); env2 = self.renorm(env, pa, pb)
+                            a2 = norm(a, pa, pb)
+                            env2[i.id] = norm(("add", a2, (1 << bits) - c, bits) if wrapped else ("sub", a2, c, bits), pa, pb)
+                            yield from self.rest(fn, b, i.idx + 1, env2, args, p2)
+                        return
                     env[i.id] = norm(t, path.lo, path.hi); continue
                 if is_c(a) and op in ("add", "or", "and", "mul"):
                     c = a[1]
